@@ -1,8 +1,16 @@
-import EdpVerif.Drv.Common
+import EdpVerif.Drv.Etf
 namespace Edp.Drv
+open Edp
 
-/-- driver requests of property C11 (stub: nothing handled yet) -/
+def ordText : Ordering → String
+  | .lt => "lt" | .eq => "eq" | .gt => "gt"
+
+/-- C11 tie: the model of `Ord::cmp` -/
 def handleC11 : List String → Option String
+  | ["c11cmp", a, b] => some <| run do
+    let a ← getTerm a
+    let b ← getTerm b
+    pure (ordText (Term.cmp a b))
   | _ => none
 
 end Edp.Drv
